@@ -245,6 +245,14 @@ def random_chunk(items, extra):
             g, cfg, keep = make(S[cname], configured, debug)
             objs.append(dict(gid='g%d_%d' % (seed_ % 100000, gi), cname=cname, configured=configured, debug=debug,
                              g=g, cfg=cfg, keep=keep, n=0, scopes=scopes_snapshot(g)))
+        # a debugging ListGrader that uses one of the observed graders as its subgrader: grading through the list
+        # must leave the shared subgrader (its configuration, its debug setting, its answers) as it was
+        host = objs[0]
+        try:
+            wrap = ListGrader(answers=[S[host['cname']]['e1'], S[host['cname']]['e2']], subgraders=host['g'],
+                              ordered=True, debug=True)
+        except Exception:  # noqa
+            wrap = None
         # bystanders that share process-wide switches / subgraders with the graders under observation
         shared_sub = StringGrader()
         lg = ListGrader(answers=['a', 'b'], subgraders=shared_sub)
@@ -268,6 +276,9 @@ def random_chunk(items, extra):
                     lg(None, [rng.choice(['a', 'b', 'c']), rng.choice(['a', 'b'])])
                 elif r < 0.22:
                     FormulaGrader(reuse_cfg)
+                elif r < 0.27 and wrap is not None:
+                    hs = S[host['cname']]
+                    wrap(None, [hs[rng.choice(['right1', 'wrong', 'malformed'])], hs[rng.choice(['right2', 'wrong'])]])
             except Exception:  # noqa
                 pass
             o = rng.choice(objs)
